@@ -40,6 +40,8 @@ func (s *muxerServer) handle(w http.ResponseWriter, r *http.Request) {
 	handler, ok := s.pathHandlers[path]
 	s.mutex.RUnlock()
 
+	verifYield("server.handle")
+
 	if ok {
 		handler(w, r)
 	}
